@@ -31,8 +31,10 @@ import (
 	"os"
 	"os/exec"
 	"path/filepath"
+	"runtime"
 	"sort"
 	"strings"
+	"sync"
 
 	"github.com/golang/snappy"
 	"github.com/hydraide/hydraide/app/core/filesystem"
@@ -245,9 +247,9 @@ func c23Base(seed int64, tier string) string {
 
 func c23Gen(rng *rand.Rand, tier string, w *bufio.Writer) {
 	c23Quiet()
-	nFolders, maxSaves := 28, 10
+	nFolders, maxSaves := 60, 10
 	if tier == "thorough" {
-		nFolders, maxSaves = 400, 30
+		nFolders, maxSaves = 160, 30
 	}
 	seed := rng.Int63() // names the scratch area; all other choices come from rng as well
 	base := c23Base(seed%100000, tier)
@@ -360,13 +362,13 @@ func c23Gen(rng *rand.Rand, tier string, w *bufio.Writer) {
 		for k := 0; k < nChunks && k < 3; k++ {
 			faults = append(faults, fmt.Sprintf("unlink:%d", k))
 		}
-		if tier != "thorough" && ci != 1 && ci != 4 && ci != 7 {
-			continue // quick tier: fault runs (one strace'd process each) on three folders
+		if tier != "thorough" && !(ci < 24 && ci%3 == 1) {
+			continue // quick tier: fault runs (one strace'd process each) on eight folders
+		}
+		if tier == "thorough" && ci > 8 && ci%2 == 0 {
+			continue // thorough tier: every second folder
 		}
 		fcombos := [][3]int{{1, 1, 0}, {0, 1, 0}, {1, 0, 0}}
-		if tier != "thorough" {
-			fcombos = [][3]int{{1, 1, 0}}
-		}
 		for _, ft := range faults {
 			for _, c := range fcombos {
 				if ft == "verify" && c[0] == 0 {
@@ -493,20 +495,44 @@ func c23Run(in *bufio.Scanner, w *bufio.Writer) {
 	c23Quiet()
 	scratch, _ := os.MkdirTemp("", "hv-c23-run-")
 	defer os.RemoveAll(scratch)
-	n := 0
+	var lines []string
 	for in.Scan() {
-		line := in.Text()
-		f := strings.Split(line, " ")
-		switch f[0] {
-		case "case":
-			fmt.Fprintln(w, line)
-		case "mig":
-			n++
-			fmt.Fprintln(w, c23One(scratch, n, line))
+		lines = append(lines, in.Text())
+	}
+	out := make([]string, len(lines))
+	// every migration works on its own copy of its folder: run them on a small worker pool
+	k := runtime.NumCPU() / 3
+	if k < 1 {
+		k = 1
+	}
+	if k > 6 {
+		k = 6
+	}
+	jobs := make(chan int)
+	var wg sync.WaitGroup
+	for j := 0; j < k; j++ {
+		wg.Add(1)
+		go func() {
+			defer wg.Done()
+			for i := range jobs {
+				out[i] = c23One(scratch, i, lines[i])
+			}
+		}()
+	}
+	for i, line := range lines {
+		switch {
+		case strings.HasPrefix(line, "case "):
+			out[i] = line
+		case strings.HasPrefix(line, "mig "):
+			jobs <- i
 		default:
-			fmt.Fprintln(w, "bad-op")
+			out[i] = "bad-op"
 		}
-		w.Flush()
+	}
+	close(jobs)
+	wg.Wait()
+	for _, l := range out {
+		fmt.Fprintln(w, l)
 	}
 }
 
